@@ -1,28 +1,309 @@
 /-
   C08 — on termination exactly one zero-lifetime RA is sent, last; on reload none.
-  (interim version: the inductive theorems over all traces are being proved separately and
-  replace this file; what is here is kernel-checked.)
+  Theorems over every trace of the shutdown transition system: any number of transmissions
+  pending or in flight, any latencies, either decision.
+
+  Every proof goes through the per-event inversion lemmas of Lemmas/Shutdown.lean.
 -/
-import Corerad.Spec.C08
+import Corerad.Lemmas.Shutdown
 
 namespace Corerad.Props.C08
 
 open Corerad Corerad.Model
 
 /-- the scheduler's cancel branch waits for the transmissions its workers have in flight, and
-    `shutdown` consults `terminate()` before sending (extracted from the source; this lemma
-    fails to build on a tree where the scheduler does not wait) -/
+    `shutdown` consults `terminate()` before sending (both extracted from the source; this
+    lemma fails to build on a tree where the scheduler does not wait) -/
 theorem gen_facts :
     Gen.Advertise.shutdownAwaitsInflight = true ∧ Gen.Advertise.shutdownChecksTerminate = true ∧
     Gen.Advertise.shutdownCalls_send = true := by decide
 
-/-- The unrepaired ordering (F-5) admits a trace in which a transmission completes after the
-    final RA and after `Run` has returned; the awaiting system rejects it. -/
+/-- invariant of the awaiting system -/
+structure Inv (s : ShState) : Prop where
+  final_le : s.final ≤ 2
+  final_idle : s.final ≠ 0 → s.inflight = 0 ∧ s.cancelled = true ∧ s.terminate = true
+  ret_idle : s.returned = true → s.inflight = 0 ∧ s.cancelled = true ∧ s.final = (if s.terminate then 2 else 0)
+
+theorem inv_init (t : Bool) : Inv { terminate := t } :=
+  ⟨Nat.zero_le 2, fun h => absurd rfl h, fun h => Bool.noConfusion h⟩
+
+theorem inv_step (s s' : ShState) (e : ShEv) (h : Inv s) (hs : shStep true s e = some s') : Inv s' := by
+  obtain ⟨h1, h2, h3⟩ := h
+  cases e with
+  | writeBegin =>
+    -- final = 0, not returned
+    obtain ⟨⟨hf, hr⟩, rfl⟩ := (shStep_writeBegin true s s').mp hs
+    refine ⟨h1, ?_, ?_⟩
+    · intro hf'; exact absurd hf hf'
+    · intro hr'; rw [show s.returned = true from hr'] at hr; cases hr
+  | writeEnd =>
+    -- inflight > 0, so final = 0 and not returned
+    obtain ⟨hpos, rfl⟩ := (shStep_writeEnd true s s').mp hs
+    have hf : s.final = 0 := by
+      by_cases hf : s.final = 0
+      · exact hf
+      · have := (h2 hf).1; omega
+    have hr : s.returned = false := by
+      cases hret : s.returned
+      · rfl
+      · have := (h3 hret).1; omega
+    refine ⟨h1, ?_, ?_⟩
+    · intro hf'; exact absurd hf hf'
+    · intro hr'; rw [show s.returned = true from hr'] at hr; cases hr
+  | cancel =>
+    obtain ⟨⟨_, hr⟩, rfl⟩ := (shStep_cancel true s s').mp hs
+    refine ⟨h1, ?_, ?_⟩
+    · intro hf; exact ⟨(h2 hf).1, rfl, (h2 hf).2.2⟩
+    · intro hr'; rw [show s.returned = true from hr'] at hr; cases hr
+  | finalBegin =>
+    obtain ⟨⟨hcan, hterm, _, hr, hidle⟩, rfl⟩ := (shStep_finalBegin true s s').mp hs
+    refine ⟨(by decide : (1 : Nat) ≤ 2), ?_, ?_⟩
+    · intro _; exact ⟨hidle rfl, hcan, hterm⟩
+    · intro hr'; rw [show s.returned = true from hr'] at hr; cases hr
+  | finalEnd =>
+    obtain ⟨hf1, rfl⟩ := (shStep_finalEnd true s s').mp hs
+    have hne : s.final ≠ 0 := by omega
+    refine ⟨Nat.le_refl 2, ?_, ?_⟩
+    · intro _; exact h2 hne
+    · intro hr
+      have hr' : s.returned = true := hr
+      obtain ⟨a, b, c⟩ := h3 hr'
+      have ht : s.terminate = true := (h2 hne).2.2
+      rw [ht] at c
+      -- c : s.final = 2, against hf1
+      exact absurd (c.symm.trans hf1) (by decide)
+  | runReturn =>
+    obtain ⟨⟨hcan, _, hidle, hfin⟩, rfl⟩ := (shStep_runReturn true s s').mp hs
+    refine ⟨h1, h2, ?_⟩
+    intro _; exact ⟨hidle rfl, hcan, hfin⟩
+
+theorem inv_run : ∀ (tr : List ShEv) (s s' : ShState), Inv s → shRun true s tr = some s' → Inv s'
+  | [], s, s', h, hr => by rw [← (shRun_nil true s s').mp hr]; exact h
+  | e :: es, s, s', h, hr => by
+    obtain ⟨s1, hs1, hr1⟩ := (shRun_cons true s s' e es).mp hr
+    exact inv_run es s1 s' (inv_step s s1 e h hs1) hr1
+
+/-- once the final RA has begun, only its completion and `Run` returning are enabled, and the
+    final RA stays begun -/
+theorem step_after_final (s s1 : ShState) (e : ShEv) (h : Inv s) (hf : s.final ≠ 0)
+    (hs : shStep true s e = some s1) :
+    (e == ShEv.finalEnd || e == ShEv.runReturn) = true ∧ s1.final ≠ 0 := by
+  obtain ⟨hidle, hcan, _⟩ := h.final_idle hf
+  cases e with
+  | writeBegin =>
+    obtain ⟨⟨hf0, _⟩, _⟩ := (shStep_writeBegin true s s1).mp hs
+    exact absurd hf0 hf
+  | writeEnd =>
+    obtain ⟨hpos, _⟩ := (shStep_writeEnd true s s1).mp hs
+    omega
+  | cancel =>
+    -- cancel while the final RA is out: impossible, cancellation came first
+    obtain ⟨⟨hnc, _⟩, _⟩ := (shStep_cancel true s s1).mp hs
+    rw [hcan] at hnc; cases hnc
+  | finalBegin =>
+    obtain ⟨⟨_, _, hf0, _, _⟩, _⟩ := (shStep_finalBegin true s s1).mp hs
+    exact absurd hf0 hf
+  | finalEnd =>
+    obtain ⟨_, rfl⟩ := (shStep_finalEnd true s s1).mp hs
+    exact ⟨by decide, (by decide : (2 : Nat) ≠ 0)⟩
+  | runReturn =>
+    obtain ⟨_, rfl⟩ := (shStep_runReturn true s s1).mp hs
+    exact ⟨by decide, hf⟩
+
+/-- once the final RA has begun, only its completion and `Run` returning can follow -/
+theorem after_final (s : ShState) (h : Inv s) (hf : s.final ≠ 0) :
+    ∀ (tr : List ShEv) (s' : ShState), shRun true s tr = some s' →
+      tr.all (fun e => e == .finalEnd || e == .runReturn) = true
+  | [], _, _ => rfl
+  | e :: es, s', hr => by
+    obtain ⟨s1, hs1, hr1⟩ := (shRun_cons true s s' e es).mp hr
+    have hinv1 := inv_step s s1 e h hs1
+    have he := step_after_final s s1 e h hf hs1
+    rw [List.all_cons, Bool.and_eq_true]
+    exact ⟨he.1, after_final s1 hinv1 he.2 es s' hr1⟩
+
+/-- **The final RA is the last packet**: in every trace, nothing but the final RA's own
+    completion and `Run` returning follows the start of the final RA. -/
+theorem final_is_last :
+    ∀ (tr : List ShEv) (s s' : ShState), Inv s → s.final = 0 → shRun true s tr = some s' →
+      Spec.C08.finalIsLast tr = true
+  | [], _, _, _, _, _ => rfl
+  | e :: es, s, s', h, hf0, hr => by
+    obtain ⟨s1, hs1, hr1⟩ := (shRun_cons true s s' e es).mp hr
+    have hinv1 := inv_step s s1 e h hs1
+    have heff := (shStep_effect true s s1 e hs1).2.1
+    by_cases he : e = .finalBegin
+    · subst he
+      have hne : s1.final ≠ 0 := by
+        rcases heff with ⟨_, hne, _⟩ | ⟨_, _, h1⟩ | ⟨hfe, _, _⟩
+        · exact absurd rfl hne
+        · omega
+        · cases hfe
+      show (es.all fun e => e == .finalEnd || e == .runReturn) = true
+      exact after_final s1 hinv1 hne es s' hr1
+    · have hf1 : s1.final = 0 := by
+        rcases heff with ⟨hsame, _, _⟩ | ⟨hfb, _, _⟩ | ⟨_, h1, _⟩
+        · omega
+        · exact absurd hfb he
+        · omega
+      have ih := final_is_last es s1 s' hinv1 hf1 hr1
+      cases e with
+      | finalBegin => exact absurd rfl he
+      | writeBegin | writeEnd | cancel | finalEnd | runReturn => exact ih
+
+/-- after `Run` has returned no event is enabled -/
+theorem no_step_after_return (s s1 : ShState) (e : ShEv) (h : Inv s) (hret : s.returned = true)
+    (hs : shStep true s e = some s1) : False := by
+  obtain ⟨hidle, _, hfin⟩ := h.ret_idle hret
+  cases e with
+  | writeBegin =>
+    obtain ⟨⟨_, hr⟩, _⟩ := (shStep_writeBegin true s s1).mp hs
+    rw [hret] at hr; cases hr
+  | writeEnd =>
+    obtain ⟨hpos, _⟩ := (shStep_writeEnd true s s1).mp hs
+    omega
+  | cancel =>
+    obtain ⟨⟨_, hr⟩, _⟩ := (shStep_cancel true s s1).mp hs
+    rw [hret] at hr; cases hr
+  | finalBegin =>
+    obtain ⟨⟨_, _, _, hr, _⟩, _⟩ := (shStep_finalBegin true s s1).mp hs
+    rw [hret] at hr; cases hr
+  | finalEnd =>
+    obtain ⟨hf1, _⟩ := (shStep_finalEnd true s s1).mp hs
+    rw [hf1] at hfin
+    cases ht : s.terminate <;> rw [ht] at hfin <;> exact absurd hfin (by decide)
+  | runReturn =>
+    obtain ⟨⟨_, hr, _, _⟩, _⟩ := (shStep_runReturn true s s1).mp hs
+    rw [hret] at hr; cases hr
+
+/-- **Nothing is transmitted after `Run` has returned**: `runReturn` ends every trace. -/
+theorem nothing_after_return :
+    ∀ (tr : List ShEv) (s s' : ShState), Inv s → s.returned = false → shRun true s tr = some s' →
+      Spec.C08.nothingAfterReturn tr = true
+  | [], _, _, _, _, _ => rfl
+  | e :: es, s, s', h, hnr, hr => by
+    obtain ⟨s1, hs1, hr1⟩ := (shRun_cons true s s' e es).mp hr
+    have hinv1 := inv_step s s1 e h hs1
+    have heff := (shStep_effect true s s1 e hs1).2.2.1
+    by_cases he : e = .runReturn
+    · subst he
+      have hret : s1.returned = true := by
+        rcases heff with ⟨_, hne⟩ | ⟨_, _, h1⟩
+        · exact absurd rfl hne
+        · exact h1
+      cases es with
+      | nil => rfl
+      | cons e2 es2 =>
+        obtain ⟨s2, hs2, _⟩ := (shRun_cons true s1 s' e2 es2).mp hr1
+        exact (no_step_after_return s1 s2 e2 hinv1 hret hs2).elim
+    · have hnr1 : s1.returned = false := by
+        rcases heff with ⟨hsame, _⟩ | ⟨hrr, _, _⟩
+        · rw [hsame]; exact hnr
+        · exact absurd hrr he
+      have ih := nothing_after_return es s1 s' hinv1 hnr1 hr1
+      cases e with
+      | runReturn => exact absurd rfl he
+      | writeBegin | writeEnd | cancel | finalBegin | finalEnd => exact ih
+
+/-- counting the final RA's starts and completions along a trace (no invariant needed) -/
+theorem final_count :
+    ∀ (tr : List ShEv) (s s' : ShState), shRun true s tr = some s' →
+      Spec.C08.count .finalBegin tr + (if s.final = 0 then 0 else 1) = (if s'.final = 0 then 0 else 1)
+        ∧ Spec.C08.count .finalEnd tr + (if s.final = 2 then 1 else 0) = (if s'.final = 2 then 1 else 0)
+  | [], s, s', hr => by
+    rw [← (shRun_nil true s s').mp hr]
+    exact ⟨Nat.zero_add _, Nat.zero_add _⟩
+  | e :: es, s, s', hr => by
+    obtain ⟨s1, hs1, hr1⟩ := (shRun_cons true s s' e es).mp hr
+    obtain ⟨ih1, ih2⟩ := final_count es s1 s' hr1
+    rw [count_cons, count_cons]
+    rcases (shStep_effect true s s1 e hs1).2.1 with ⟨hsame, hne1, hne2⟩ | ⟨rfl, h0, h1⟩ | ⟨rfl, h1, h2⟩
+    · rw [if_neg hne1, if_neg hne2, ← hsame]
+      exact ⟨ih1, ih2⟩
+    · rw [h1] at ih1 ih2
+      rw [h0, if_pos rfl, if_neg (by decide : ¬ ShEv.finalBegin = ShEv.finalEnd)]
+      rw [if_neg (by decide : ¬ (1 = 0))] at ih1
+      rw [if_neg (by decide : ¬ (1 = 2))] at ih2
+      rw [if_pos rfl, if_neg (by decide : ¬ (0 = 2))]
+      exact ⟨ih1, ih2⟩
+    · rw [h2] at ih1 ih2
+      rw [h1, if_pos rfl, if_neg (by decide : ¬ ShEv.finalEnd = ShEv.finalBegin)]
+      rw [if_neg (by decide : ¬ (2 = 0))] at ih1
+      rw [if_pos rfl] at ih2
+      rw [if_neg (by decide : ¬ (1 = 0)), if_neg (by decide : ¬ (1 = 2))]
+      exact ⟨ih1, ih2⟩
+
+/-- **Exactly one final RA iff terminating**: in any complete run (one that ends with `Run`
+    returning) the zero-lifetime RA was started and completed exactly once when terminating,
+    and never when reloading. -/
+theorem final_exactly_once_iff_terminate (t : Bool) (tr : List ShEv) (s' : ShState)
+    (hr : shRun true { terminate := t } tr = some s') (hret : s'.returned = true) :
+    Spec.C08.count .finalBegin tr = (if t then 1 else 0) ∧
+    Spec.C08.count .finalEnd tr = (if t then 1 else 0) := by
+  have hinv := inv_run tr _ s' (inv_init t) hr
+  have hterm : s'.terminate = t := shRun_terminate true tr _ s' hr
+  obtain ⟨_, _, hfin⟩ := hinv.ret_idle hret
+  rw [hterm] at hfin
+  obtain ⟨h1, h2⟩ := final_count tr _ s' hr
+  have h1' : Spec.C08.count .finalBegin tr + 0 = (if s'.final = 0 then 0 else 1) := h1
+  have h2' : Spec.C08.count .finalEnd tr + 0 = (if s'.final = 2 then 1 else 0) := h2
+  cases t with
+  | true =>
+    have hfin' : s'.final = 2 := hfin
+    rw [hfin'] at h1' h2'
+    exact ⟨h1', h2'⟩
+  | false =>
+    have hfin' : s'.final = 0 := hfin
+    rw [hfin'] at h1' h2'
+    exact ⟨h1', h2'⟩
+
+/-- The whole oracle holds of every complete trace of the system. -/
+theorem holds_model (t : Bool) (tr : List ShEv) (s' : ShState)
+    (hr : shRun true { terminate := t } tr = some s') (hret : s'.returned = true)
+    (hone : Spec.C08.count .runReturn tr = 1) :
+    Spec.C08.holds t tr = true := by
+  obtain ⟨h1, h2⟩ := final_exactly_once_iff_terminate t tr s' hr hret
+  unfold Spec.C08.holds
+  simp only [Bool.and_eq_true, beq_iff_eq]
+  refine ⟨⟨⟨⟨hone, h1⟩, by rw [h2, h1]⟩, ?_⟩, ?_⟩
+  · exact final_is_last tr _ s' (inv_init t) rfl hr
+  · exact nothing_after_return tr _ s' (inv_init t) rfl hr
+
+/-- **Transmissions stop before the final RA and before `Run` returns**: in any accepted trace,
+    every scheduled transmission begins before `Run` returns and before the final RA begins. -/
+theorem writes_stop_after_cancel_returns (t : Bool) (tr pre post : List ShEv)
+    (htr : tr = pre ++ [ShEv.writeBegin] ++ post) (hacc : shAccepts true t tr = true) :
+    ShEv.finalBegin ∉ pre ∧ ShEv.runReturn ∉ pre := by
+  subst htr
+  obtain ⟨s', hr⟩ := (shAccepts_iff true t _).mp hacc
+  obtain ⟨m, hr1, _⟩ := (shRun_append true _ post _ s').mp hr
+  obtain ⟨s1, hpre, hw⟩ := (shRun_append true pre [ShEv.writeBegin] _ m).mp hr1
+  obtain ⟨s2, hstep, _⟩ := (shRun_cons true s1 m .writeBegin []).mp hw
+  obtain ⟨⟨hf, hnr⟩, _⟩ := (shStep_writeBegin true s1 s2).mp hstep
+  exact ⟨(shRun_final_zero true pre _ s1 hpre hf).2, (shRun_not_returned true pre _ s1 hpre hnr).2⟩
+
+/-- **`Run` returns only after cancellation**: in any accepted trace, `runReturn` is preceded by
+    `cancel`. -/
+theorem return_requires_cancel (t : Bool) (tr pre post : List ShEv)
+    (htr : tr = pre ++ [ShEv.runReturn] ++ post) (hacc : shAccepts true t tr = true) :
+    ShEv.cancel ∈ pre := by
+  subst htr
+  obtain ⟨s', hr⟩ := (shAccepts_iff true t _).mp hacc
+  obtain ⟨m, hr1, _⟩ := (shRun_append true _ post _ s').mp hr
+  obtain ⟨s1, hpre, hw⟩ := (shRun_append true pre [ShEv.runReturn] _ m).mp hr1
+  obtain ⟨s2, hstep, _⟩ := (shRun_cons true s1 m .runReturn []).mp hw
+  obtain ⟨⟨hcan, _⟩, _⟩ := (shStep_runReturn true s1 s2).mp hstep
+  exact shRun_cancelled true pre _ s1 hpre rfl hcan
+
+/-- The unrepaired ordering (F-5) — the scheduler returning without awaiting in-flight
+    transmissions — admits a trace in which a transmission completes after the final RA and after
+    `Run` has returned; the awaiting system rejects it. -/
 theorem unrepaired_witness :
     let tr := [ShEv.writeBegin, .cancel, .finalBegin, .finalEnd, .runReturn, .writeEnd]
     shAccepts false true tr = true ∧ Spec.C08.holds true tr = false ∧ shAccepts true true tr = false := by
   decide
 
+/-- Non-vacuity: a terminating run with one transmission in flight at the stop instant. -/
 example :
     let tr := [ShEv.writeBegin, .writeEnd, .writeBegin, .cancel, .writeEnd, .finalBegin, .finalEnd, .runReturn]
     shAccepts true true tr = true ∧ Spec.C08.holds true tr = true ∧
